@@ -27,6 +27,7 @@ pub struct FileState {
     pub bytes: Seq<u8>,                   // content; length = bytes.len()
     pub data: ISet<int>,                   // offsets that SEEK_DATA regards as data (source) / that were ever written (destination)
     pub kext: Seq<KExt>,                  // extent list FIEMAP reports
+    pub fiemap_ok: bool,                  // the filesystem answers FS_IOC_FIEMAP for this inode (false: EOPNOTSUPP)
     pub blocks: u64,                      // st_blocks
     pub mode: u32,                        // st_mode & 0o7777
     pub atime: Time,
